@@ -170,6 +170,35 @@ class PyReader:
                         continue
                 if not broke and s.orelse:
                     self.block(s.orelse, env, fns)
+            elif isinstance(s, ast.AugAssign) and isinstance(s.target, ast.Name):
+                cur = self.ev(s.target, env, fns) if s.target.id in env else self.fail(s, "augmented assignment to an unbound name")
+                fake = ast.BinOp(left=ast.Name(id="__aug_l__", ctx=ast.Load()), op=s.op, right=ast.Name(id="__aug_r__", ctx=ast.Load()))
+                ast.copy_location(fake, s)
+                e2 = dict(env)
+                e2["__aug_l__"], e2["__aug_r__"] = cur, self.ev(s.value, env, fns)
+                env[s.target.id] = self.ev(fake, e2, fns)
+            elif isinstance(s, ast.Match):
+                subject = self.ev(s.subject, env, fns)
+                for case in s.cases:
+                    pat = case.pattern
+                    if isinstance(pat, ast.MatchValue):
+                        hit = self.ev(pat.value, env, fns) == subject
+                    elif isinstance(pat, ast.MatchSingleton):
+                        hit = subject is pat.value
+                    elif isinstance(pat, ast.MatchAs) and pat.pattern is None:
+                        hit = True
+                        if pat.name:
+                            env[pat.name] = subject
+                    elif isinstance(pat, ast.MatchOr) and all(isinstance(p_, ast.MatchValue) for p_ in pat.patterns):
+                        hit = any(self.ev(p_.value, env, fns) == subject for p_ in pat.patterns)
+                    else:
+                        self.fail(s, "match pattern outside the supported subset")
+                    if hit and case.guard is not None:
+                        g_ = self.ev(case.guard, env, fns)
+                        hit = bool(g_) if isinstance(g_, bool) else self.fail(case.guard, "guard not decidable")
+                    if hit:
+                        self.block(case.body, env, fns)
+                        break
             elif isinstance(s, ast.Break):
                 raise _Break()
             elif isinstance(s, ast.Continue):
